@@ -561,9 +561,7 @@ def run_len(c):
                     r.expect_close('filter.linearity', dict(base, record=tag), fs, fx * m, rtol=max(tol, 1e-12), atol=0.0,
                                    scale=pk * m, what='F(m x) vs m F(x)')
             for cont in LEN_CONTAINERS:
-                if cont[:2] in ('u8', 'i1') and gibbs is None:
-                    r.disabled['len: narrow integer record without Gibbs padding (restricted, see LEN_CONTAINERS)'] += 1
-                    continue
+                # narrow integer records also without Gibbs padding since fix f36ae18 (filtfilt used to extend them in their own dtype)
                 if cont == 'i64':
                     arr = np.array(xi, dtype=np.int64)
                 elif cont == 'list':
